@@ -387,6 +387,45 @@ func (p *PG) Shallow(x *HVal) *HVal {
 	return &HVal{K: "struct", A: p.H.Fresh(), F: append([]HField{}, x.F...)}
 }
 
+// aliasInside makes, in every list / set that starts with a non-nil struct pointer, the second element
+// the very object of the first (inserting it when the second is not a struct), and likewise the
+// first two struct values of a map; returns how many containers were changed.
+func aliasInside(v *HVal) int {
+	n := 0
+	switch v.K {
+	case "list":
+		if len(v.L) >= 2 && v.L[0].K == "struct" && v.L[1].K == "struct" {
+			v.L[1] = v.L[0]
+			n++
+		} else if len(v.L) >= 1 && v.L[0].K == "struct" {
+			v.L = append(v.L[:1:1], append([]*HVal{v.L[0]}, v.L[1:]...)...)
+			n++
+		}
+		for i, e := range v.L {
+			if i == 1 && n > 0 {
+				continue
+			}
+			n += aliasInside(e)
+		}
+	case "map":
+		if len(v.M) >= 2 && v.M[0][1].K == "struct" && v.M[1][1].K == "struct" {
+			v.M[1] = [2]*HVal{v.M[1][0], v.M[0][1]}
+			n++
+		}
+		for i, kv := range v.M {
+			if i == 1 && n > 0 {
+				continue
+			}
+			n += aliasInside(kv[1])
+		}
+	case "struct":
+		for _, f := range v.F {
+			n += aliasInside(f.V)
+		}
+	}
+	return n
+}
+
 // Pairs produces n pairs for struct-like s, cycling through the kinds.
 func (p *PG) Pairs(s *schemagen.Struct, n int) []*Pair {
 	var out []*Pair
@@ -410,8 +449,13 @@ func (p *PG) Pairs(s *schemagen.Struct, n int) []*Pair {
 			default:
 				out = append(out, &Pair{X: HNil(), Y: HNil(), Kind: "nil-nil"})
 			}
-		case i%12 == 4:
+		case i%12 == 4 && i%24 == 4:
 			out = append(out, &Pair{X: x, Y: base(), Kind: "independent"})
+		case i%12 == 4:
+			// one object referenced twice inside x (where a list of structs allows it) against a deep
+			// copy, in which the two references are two objects
+			n := aliasInside(x)
+			out = append(out, &Pair{X: x, Y: p.H.Copy(x), Kind: "twice-inside", Depth: n})
 		case i%12 == 5 || i%12 == 6:
 			out = append(out, p.Mutate(s, x, true))
 		default:
